@@ -85,6 +85,19 @@ def run_history(w, hist: str, shared: bool, api: str, advancing: bool, real_entr
                         random.seed(20240229)
                         out.append((op, "skip", None))
                         continue
+                    if op == "H":
+                        # protect naming rkS through a DC that stands at L2 = 31 and omits the L2 key (allowed shape), with a cache of its own:
+                        # every such call gets its key material straight from a GetKey reply
+                        dch = refdc.DC([w["rkS"]], now=(NOW[0], NOW[1], 31))
+                        dch.l2_at_31 = False
+                        fth = (NOW[0] * 1024 + NOW[1] * 32 + 31) * gkdi.B + 9 + i
+                        with seams.clock(fth), transport.network(dch):
+                            fh = (dpapi_ng.ncrypt_protect_secret, dpapi_ng.async_ncrypt_protect_secret)[api == "async"]
+                            kwh = dict(kw, cache=dpapi_ng.KeyCache(), root_key_identifier=w["rkS"].rkid)
+                            vh = fh(P1, SID1, **kwh) if api == "sync" else vloop.run(fh(P1, SID1, **kwh))
+                        last_blob = bytes(vh)
+                        out.append((op, "ok", bytes(vh)))
+                        continue
                     if op == "U":
                         if last_blob is None:
                             out.append((op, "skip", None))
@@ -305,10 +318,11 @@ def run_shard(shard, tier, seed, acc) -> None:
         acc.sample({"concurrent async protects on one cache": "all tuples of 2..3 calls over {A,F,D,E}", "delivery": ["FIFO", "LIFO"]})
         return
     if shard[0] == "extra":
-        # histories over {A, G (public-key mode, DH root key with a 509-bit private key), R (global PRNG reseeded to a constant)}
+        # histories over {A, G (public-key mode, DH root key with a 509-bit private key), R (global PRNG reseeded to a constant),
+        # H (seed keys straight from a DC that omits the L2 key at L2 = 31)}
         n = 0
-        for k in range(2, 5 if tier == "quick" else 6):
-            for h in itertools.product("AGR", repeat=k):
+        for k in range(2, 4 if tier == "quick" else 5):
+            for h in itertools.product("AGRH", repeat=k):
                 hist = "".join(h)
                 if sum(c != "R" for c in hist) < 2:
                     continue
